@@ -104,6 +104,7 @@ pub fn run(ctx: &Ctx) -> i32 {
     anchors(ctx);
     layers(ctx);
     sponge(ctx);
+    keccak_spec(ctx);
     challenger_native(ctx);
     challenger_compound(ctx);
     challenger_circuit(ctx);
@@ -116,6 +117,7 @@ pub fn run(ctx: &Ctx) -> i32 {
             "states outside U1/U2/U3 are not covered (2^768 states are out of reach of enumeration); the alphabets contain the all-ones 32-bit halves that maximise every delayed-reduction accumulator".into(),
             "the reference permutation is anchored on the four published test vectors".into(),
             "AVX2/NEON Poseidon specialisations are commented out / other-architecture in this tree".into(),
+            "Keccak side: KeccakHash::{hash_no_pad, two_to_one, hash_or_noop} and KeccakPermutation::permute are compared with an independent Keccak-256 (Keccak-f[1600] written in the harness, anchored on the published digests of the empty string and of \"abc\") applied to the documented byte layout".into(),
             format!("build variant: {variant}"),
         ],
         extra: json!({"variant": variant}),
@@ -901,3 +903,162 @@ fn challenger_circuit(ctx: &Ctx) {
 
 #[allow(unused)]
 fn _unused<T: RichField>() {}
+
+
+// ---------------------------------------------------------------------------------------------
+// Keccak: independent Keccak-256 and the documented byte layouts of keccak.rs
+
+fn keccak_f(a: &mut [u64; 25]) {
+    const RC: [u64; 24] = [
+        0x0000000000000001, 0x0000000000008082, 0x800000000000808a, 0x8000000080008000, 0x000000000000808b, 0x0000000080000001, 0x8000000080008081, 0x8000000000008009,
+        0x000000000000008a, 0x0000000000000088, 0x0000000080008009, 0x000000008000000a, 0x000000008000808b, 0x800000000000008b, 0x8000000000008089, 0x8000000000008003,
+        0x8000000000008002, 0x8000000000000080, 0x000000000000800a, 0x800000008000000a, 0x8000000080008081, 0x8000000000008080, 0x0000000080000001, 0x8000000080008008,
+    ];
+    const ROT: [[u32; 5]; 5] = [[0, 36, 3, 41, 18], [1, 44, 10, 45, 2], [62, 6, 43, 15, 61], [28, 55, 25, 21, 56], [27, 20, 39, 8, 14]];
+    // a[x + 5 y]
+    for rc in RC {
+        let mut c = [0u64; 5];
+        for x in 0..5 {
+            c[x] = a[x] ^ a[x + 5] ^ a[x + 10] ^ a[x + 15] ^ a[x + 20];
+        }
+        for x in 0..5 {
+            let d = c[(x + 4) % 5] ^ c[(x + 1) % 5].rotate_left(1);
+            for y in 0..5 {
+                a[x + 5 * y] ^= d;
+            }
+        }
+        let mut b = [0u64; 25];
+        for x in 0..5 {
+            for y in 0..5 {
+                b[y + 5 * ((2 * x + 3 * y) % 5)] = a[x + 5 * y].rotate_left(ROT[x][y]);
+            }
+        }
+        for x in 0..5 {
+            for y in 0..5 {
+                a[x + 5 * y] = b[x + 5 * y] ^ (!b[(x + 1) % 5 + 5 * y] & b[(x + 2) % 5 + 5 * y]);
+            }
+        }
+        a[0] ^= rc;
+    }
+}
+
+pub fn ref_keccak256(msg: &[u8]) -> [u8; 32] {
+    const RATE: usize = 136;
+    let mut st = [0u64; 25];
+    let mut padded = msg.to_vec();
+    padded.push(0x01);
+    while padded.len() % RATE != 0 {
+        padded.push(0);
+    }
+    let n = padded.len();
+    padded[n - 1] |= 0x80;
+    for block in padded.chunks(RATE) {
+        for (i, w) in block.chunks(8).enumerate() {
+            st[i] ^= u64::from_le_bytes(w.try_into().unwrap());
+        }
+        keccak_f(&mut st);
+    }
+    let mut out = [0u8; 32];
+    for i in 0..4 {
+        out[8 * i..8 * i + 8].copy_from_slice(&st[i].to_le_bytes());
+    }
+    out
+}
+
+fn keccak_spec(ctx: &Ctx) {
+    use plonky2::plonk::config::GenericHashOut;
+    // anchors of the reference itself
+    let hex = |b: &[u8]| b.iter().map(|x| format!("{x:02x}")).collect::<String>();
+    ctx.case("keccak:reference-anchor", "keccak anchors", || {
+        if hex(&ref_keccak256(b"")) != "c5d2460186f7233c927e7db2dcc703c0e500b653ca82273b7bfad8045d85a470" {
+            return Err("reference Keccak-256 of the empty string is wrong (harness bug)".into());
+        }
+        if hex(&ref_keccak256(b"abc")) != "4e03657aea45a94fc7d47ba826c8d667c0d1e6e33a64a036ec44f58fa12d6c45" {
+            return Err("reference Keccak-256 of abc is wrong (harness bug)".into());
+        }
+        // a message longer than one rate block
+        let long = vec![0xA3u8; 200];
+        if hex(&ref_keccak256(&long)) != "3a57666b048777f2c953dc4456f45a2588e1cb6f2da760122d530ac2ce607d4a" {
+            return Err("reference Keccak-256 of 200 x 0xa3 is wrong (harness bug)".into());
+        }
+        Ok("keccak:anchors".into())
+    });
+    let vals = [0u64, 1, P - 1, EPS, 1 << 32, 1 << 63, P, u64::MAX, 0x0123_4567_89ab_cdef];
+    // hash_no_pad / hash_or_noop: all lengths 0..=40, elements cycling through boundary values
+    for len in 0..=40usize {
+        let msg: Vec<u64> = (0..len).map(|i| vals[(i * 5 + len) % vals.len()]).collect();
+        let case = format!("keccak hash_no_pad len={len}");
+        ctx.case("keccak:hash_no_pad", &case, || {
+            let f: Vec<F> = msg.iter().map(|x| F(*x)).collect();
+            let bytes: Vec<u8> = msg.iter().flat_map(|x| (x % P).to_le_bytes()).collect();
+            let want = ref_keccak256(&bytes);
+            let got = <KeccakHash<25> as Hasher<F>>::hash_no_pad(&f);
+            if got.0[..] != want[..25] {
+                return Err(format!("KeccakHash<25>::hash_no_pad differs from Keccak-256 of the little-endian canonical bytes (len {len})"));
+            }
+            let got32 = <KeccakHash<32> as Hasher<F>>::hash_no_pad(&f);
+            if got32.0[..] != want[..] {
+                return Err(format!("KeccakHash<32>::hash_no_pad differs (len {len})"));
+            }
+            let noop = <KeccakHash<25> as Hasher<F>>::hash_or_noop(&f);
+            if len * 8 <= 25 {
+                let mut w = [0u8; 25];
+                w[..bytes.len()].copy_from_slice(&bytes);
+                if noop.0 != w {
+                    return Err(format!("hash_or_noop of a short input is not the verbatim zero-padded bytes (len {len})"));
+                }
+            } else if noop.0[..] != want[..25] {
+                return Err(format!("hash_or_noop of a long input is not hash_no_pad (len {len})"));
+            }
+            Ok(format!("keccak:hash:{}", if len * 8 <= 25 { "noop" } else { "hashed" }))
+        });
+    }
+    // two_to_one
+    for k in 0..16u8 {
+        ctx.case("keccak:two_to_one", &format!("keccak two_to_one #{k}"), || {
+            let l: [u8; 25] = core::array::from_fn(|i| (i as u8).wrapping_mul(k).wrapping_add(k));
+            let r: [u8; 25] = core::array::from_fn(|i| 0xFFu8.wrapping_sub((i as u8).wrapping_mul(k)));
+            let mut cat = l.to_vec();
+            cat.extend_from_slice(&r);
+            let want = ref_keccak256(&cat);
+            let got = <KeccakHash<25> as Hasher<F>>::two_to_one(plonky2::hash::hash_types::BytesHash(l), plonky2::hash::hash_types::BytesHash(r));
+            if got.0[..] != want[..25] {
+                return Err("KeccakHash<25>::two_to_one differs from Keccak-256(left || right)".into());
+            }
+            Ok("keccak:two_to_one".into())
+        });
+    }
+    // the pseudo-permutation: field representation of H(s) || H(H(s)) || ... with rejection sampling
+    let mut states: Vec<St> = vec![[0; 12], [P - 1; 12], [u64::MAX; 12]];
+    for i in 0..40u64 {
+        let mut seed = 0xC13_0000 + i;
+        states.push(core::array::from_fn(|_| splitmix(&mut seed)));
+        states.push(core::array::from_fn(|j| if j as u64 == i % 12 { vals[(i as usize) % vals.len()] } else { 0 }));
+    }
+    for (i, s) in states.iter().enumerate() {
+        ctx.case("keccak:permutation", &format!("keccak permutation state#{i}"), || {
+            let mut bytes: Vec<u8> = s.iter().flat_map(|x| (x % P).to_le_bytes()).collect();
+            let mut out: Vec<u64> = Vec::new();
+            let mut rejected = 0;
+            while out.len() < 12 {
+                let h = ref_keccak256(&bytes);
+                for w in h.chunks(8) {
+                    let v = u64::from_le_bytes(w.try_into().unwrap());
+                    if v < P {
+                        if out.len() < 12 {
+                            out.push(v);
+                        }
+                    } else {
+                        rejected += 1;
+                    }
+                }
+                bytes = h.to_vec();
+            }
+            let got = keccak_perm(s);
+            if got.iter().map(|x| x % P).collect::<Vec<_>>() != out {
+                return Err("KeccakPermutation::permute differs from the documented hash onion with rejection sampling".into());
+            }
+            Ok(format!("keccak:permutation:rejected{}", rejected.min(1)))
+        });
+    }
+}
